@@ -17,10 +17,10 @@ Go code modelled (pkg/protocol/request.go, pkg/protocol/http1/server.go, pkg/pro
 * `Request.CloseBodyStream()`, `ResetBody()` (also inside `SetBody*`): detach without reading.
 * `Request.SetBodyStream(r, n)`: `ResetBody()` and then the request references `r` (`Fin.replaced`) - e.g. a
   middleware that wraps the stream to count or limit it; reads through the wrapper reach the stream.
-* After the handler (`server.go`): `if ctx.Request.IsBodyStream() { err = ext.ReleaseBodyStream(ctx.RequestBodyStream()) … }`
-  where `ReleaseBodyStream` only acts on a `*bodyStream`.  So `skipRest` runs (and a remembered read error closes
-  the connection) exactly when the request STILL references the stream the server built: `Fin.attached`.  Otherwise
-  the loop goes on at whatever position the stream was left at.
+* After the handler (`server.go`, since d6f45a0): `if reqBodyStream != nil { err = ext.ReleaseBodyStream(reqBodyStream) … }`
+  with `reqBodyStream` taken from the request BEFORE the handler ran.  So `skipRest` runs (and a remembered read error
+  closes the connection) whatever the request references afterwards.  `Fin` is kept as information about the program
+  (the driver reports it); it no longer changes the loop.
 -/
 namespace Hertz.H1.Stream
 open Hertz Hertz.H1 Hertz.Gen.Str
@@ -65,22 +65,14 @@ def Api.prog (wire : Nat) : Api → Prog
 /-- the prefetch of `ReadBodyWithStreaming` for a fixed-length body that is within the limit -/
 def prefetchLen (cfg : Cfg) (cl : Nat) : Nat := min cl (min cfg.maxBody Gen.maxContentLengthInStream.toNat)
 
-/-- one request in streaming mode with a program: as `streamBody` while the request still references the stream;
-otherwise nothing is drained and nothing reports a read error, the connection stays where the reads left it:
-chunked - the unread wire of the stream state (possibly inside a chunk); fixed length - behind the prefetched
-bytes or behind the bytes read, whichever is further.
-(After a FAILED read of a chunked stream the real position is somewhere in the refused framing line; the model keeps
-the position before that line.  The driver does not compare such cases, the theorems do not speak about them.) -/
+/-- one request in streaming mode with a program.  Since `/repo` d6f45a0 `Serve` releases the stream IT built (a local
+taken before the handler runs), whatever the request references when the handler returns: the post-handler step is
+`streamBody`'s for every `Fin` — the unread rest is skipped, a remembered read error closes the connection.
+(Before the repair the release ran only while the request still referenced the stream: after `CloseBodyStream()` /
+`ResetBody()` / `SetBodyStream(other)` or a failing `Body()` nothing was drained and body bytes were parsed as the next
+request; `Props/C14.lean: detached_stream_is_drained_or_closed` is the theorem the repair made true.) -/
 def streamBodyP (cfg : Cfg) (e : End) (hd : ReqHead) (s : Bytes) (p : Prog) : Except RdErr (ReqOut × After) :=
-  if p.fin = .attached then streamBody cfg e hd s p.c
-  else if hd.cl = -2 then streamBody cfg e hd s p.c
-  else if hd.cl = -1 then
-    let r := consumeChunked cfg e hd.trailer p.c (p.c.stopAfter + s.length + 2) { s := s } []
-    .ok ({ head := hd, got := r.1, streamed := true }, .resync r.2.s)
-  else
-    match streamBody cfg e hd s p.c with
-    | .error x => .error x
-    | .ok (r, _) => .ok (r, .resync (s.drop (max (prefetchLen cfg hd.cl.toNat) r.got.bytes.length)))
+  streamBody cfg e hd s p.c
 
 inductive PEv where
   | continue100
